@@ -124,7 +124,13 @@ impl<const N: usize, T: Send + Sync> AtomicIter<T> for ConIterOfArray<N, T> {
     }
 
     fn early_exit(&self) {
-        self.counter().store(N)
+        // reserve all remaining positions, as a chunk pull does, so that no other caller can obtain them;
+        // and drop the skipped elements, which would otherwise count as delivered and never be dropped
+        if let Some(begin_idx) = self.progress_and_get_begin_idx(N) {
+            let first = unsafe { (self.array.get() as *mut T).add(begin_idx) };
+            let skipped = std::ptr::slice_from_raw_parts_mut(first, N - begin_idx);
+            unsafe { std::ptr::drop_in_place(skipped) };
+        }
     }
 }
 
